@@ -7,6 +7,10 @@
 //!     | (const string notr|tr "…") | (const enum "VBase::ModeB") | (const set "A|B")
 //!     | (const stringlist notr|tr "…"…) | (const other "<element>") | (dynamic) | (rejected "msg"…)
 //!   The Lean side judges it against `Spec.ConstSem.eval` of the same expression.
+//! * `(c03-strlit "raw text between the quotes")`, kind=pred: the literal is bound to `VBase.s`; the answer carries the
+//!   segmentation of the real CST (fragments / escape sequences), what the real decoder made of it, and what became of
+//!   the binding in the real `.ui`; Lean compares the decoder with `Model.Literal.parseString` (exact) and judges the
+//!   embedded string against `Spec.Ecma.stringValue` (UTF-16 units).
 //! * `(literal "0x1F")`, kind=model: what the real number parser (through `Expression::from_node`) makes of the
 //!   literal, compared with `Model.Literal.parseNumberStr`; `(spec-mv "0x1F")`, kind=spec: with `Spec.Ecma.mv`.
 use crate::ast::{self, Expr, Program, Stmt};
@@ -233,6 +237,40 @@ fn random_literal(rng: &mut Rng) -> String {
     s
 }
 
+/// raw text of a string literal (between the double quotes): fragments and escape sequences of every form,
+/// valid and not
+fn random_strlit(rng: &mut Rng) -> String {
+    let mut s = String::new();
+    let n = 1 + rng.below(5);
+    // half of the literals use only the escape forms the decoder accepts, so that whole literals are embedded
+    let valid_only = rng.chance(1, 2);
+    for _ in 0..n {
+        let pick = if valid_only { *rng.pick(&[0usize, 1, 4, 4, 5, 6, 13, 14, 15]) } else { rng.below(14) };
+        match pick {
+            14 => s.push_str(&format!("\\u{:04x}", *rng.pick(&[0x41u32, 0xe9, 0x20ac, 0xd7ff, 0xe000, 0xfffd]))),
+            15 => s.push_str(&format!("\\u{{{:x}}}", *rng.pick(&[0x9u32, 0x41, 0xe9, 0x10000, 0x1f600, 0x10ffff]))),
+            0 | 1 => s.push_str(*rng.pick(&["a", "bc", "x y", "Z9", "é", "\u{e000}", "\u{1f600}", "<&>", "'", "7", "f", "_"])),
+            2 | 3 => {
+                // single-character escapes: every printable ASCII character
+                let c = (0x20u8 + rng.below(0x5f) as u8) as char;
+                s.push('\\');
+                s.push(c);
+            }
+            4 => s.push_str(*rng.pick(&["\\n", "\\t", "\\r", "\\\\", "\\\"", "\\'", "\\b", "\\f", "\\v", "\\0"])),
+            5 => s.push_str(&format!("\\x{:02x}", 0x20 + rng.below(0xe0))),
+            6 => s.push_str(&format!("\\x{:02X}", rng.below(0x20))),
+            7 => s.push_str(&format!("\\u{:04x}", *rng.pick(&[0x41u32, 0xe9, 0x20ac, 0xd7ff, 0xd800, 0xdbff, 0xdc00, 0xdfff, 0xe000, 0xfffd, 0xfffe, 0xffff]))),
+            8 => s.push_str(&format!("\\u{{{:x}}}", *rng.pick(&[0x0u32, 0x9, 0x41, 0xe9, 0xd800, 0xffff, 0x10000, 0x1f600, 0x10ffff, 0x110000, 0xffffffff]))),
+            9 => s.push_str(*rng.pick(&["\\u{0041}", "\\u{000041}", "\\u{}", "\\u{g}", "\\u12", "\\x4", "\\xg1", "\\u{41", "\\ud83d\\ude00"])),
+            10 => s.push_str(*rng.pick(&["\\1", "\\7", "\\8", "\\9", "\\00", "\\12", "\\012", "\\101", "\\377", "\\400", "\\08", "\\1a"])),
+            11 => s.push_str(*rng.pick(&["\\\n", "\\\r\n", "\\\u{2028}", "\\\u{2029}"])), // line continuations
+            12 => s.push_str(*rng.pick(&["\\é", "\\\u{1f600}", "\\/", "\\-", "\\%", "\\a", "\\e", "\\ "])),
+            _ => s.push_str(&format!("{}", rng.below(100))),
+        }
+    }
+    s
+}
+
 fn describe_property(p: &xml::Element) -> Sexp {
     let v = match p.elems().next() {
         Some(v) => v,
@@ -306,6 +344,89 @@ impl C03 {
         r
     }
 
+    /// `(c03-strlit "raw")` → `(strlit (segs (frag "…") (esc "…")…) <what the real parser made of it> <what became of the binding>)`
+    fn strlit_answer(&self, raw: &str) -> Sexp {
+        let mut src = String::from("import qmluic.QtWidgets\nQWidget {\n    windowTitle: \"anchor\"\n");
+        src.push_str(&format!("    VBase {{\n        id: a\n        s: \"{raw}\"\n    }}\n}}\n"));
+        let doc = UiDocument::parse(src.clone(), "MyType", None);
+        if doc.has_syntax_error() {
+            return node("syntax-error", vec![st(raw)]);
+        }
+        // the string node of the binding `s` and its segmentation as the CST presents it
+        let mut stack = vec![doc.root_node()];
+        let mut found = None;
+        while let Some(n) = stack.pop() {
+            if n.kind() == "string" && n.byte_range().len() == raw.len() + 2 && &doc.source()[n.byte_range()][1..raw.len() + 1] == raw {
+                found = Some(n);
+                break;
+            }
+            let mut c = n.walk();
+            for k in n.children(&mut c) {
+                stack.push(k);
+            }
+        }
+        let sn = match found {
+            Some(n) => n,
+            None => return node("syntax-error", vec![st("string node not found")]),
+        };
+        let mut segs = vec![atom("segs")];
+        let mut concat = String::new();
+        let mut cur = sn.walk();
+        for k in sn.named_children(&mut cur) {
+            let t = &doc.source()[k.byte_range()];
+            concat.push_str(t);
+            match k.kind() {
+                "string_fragment" => segs.push(node("frag", vec![st(t)])),
+                "escape_sequence" => segs.push(node("esc", vec![st(t)])),
+                other => return node("syntax-error", vec![st(format!("unexpected child {other}"))]),
+            }
+        }
+        if concat != raw {
+            return node("syntax-error", vec![st("segments do not cover the literal")]);
+        }
+        // what the real literal decoder (`parse_string`, through `Expression::from_node`) makes of it
+        let parsed = (|| -> Result<Sexp, String> {
+            let program = UiProgram::from_node(doc.root_node(), doc.source()).map_err(|e| e.to_string())?;
+            let root = UiObjectDefinition::from_node(program.root_object_node(), doc.source()).map_err(|e| e.to_string())?;
+            let child = *root.child_object_nodes().first().ok_or("no child object")?;
+            let obj = UiObjectDefinition::from_node(child, doc.source()).map_err(|e| e.to_string())?;
+            let map = obj.build_binding_map(doc.source()).map_err(|e| e.to_string())?;
+            let v = map.get("s").ok_or("no binding")?;
+            let stn = v.get_node().ok_or("not a scalar binding")?;
+            let en = match stn.parse().map_err(|e| e.to_string())? {
+                Statement::Expression(n) => n,
+                _ => return Err("not an expression statement".into()),
+            };
+            Ok(match en.parse(doc.source()) {
+                Ok(Expression::String(v)) => node("value", vec![st(v)]),
+                Ok(_) => node("unavailable", vec![]),
+                Err(_) => node("none", vec![]),
+            })
+        })()
+        .unwrap_or_else(|e| node("unavailable", vec![st(e)]));
+        let t = env::translate(&self.tm, &src, "MyType", Mode::Generate);
+        let errors: Vec<Sexp> = t.diags.iter().filter(|d| d.is_error).map(|d| st(d.message.clone())).collect();
+        let outcome = if !errors.is_empty() || t.ui.is_none() {
+            node("rejected", errors)
+        } else {
+            let ui = t.ui.unwrap();
+            match xml::parse(&ui) {
+                Ok(root) => {
+                    let all = root.descendants();
+                    match all.iter().find(|e| e.name == "widget" && e.attr("name") == Some("a")) {
+                        Some(a) => match a.children_named("property").find(|p| p.attr("name") == Some("s")) {
+                            Some(p) => describe_property(p),
+                            None => node("dynamic", vec![]),
+                        },
+                        None => node("no-object", vec![]),
+                    }
+                }
+                Err(e) => node("unreadable-ui", vec![st(e)]),
+            }
+        };
+        node("strlit", vec![Sexp::List(segs), parsed, outcome])
+    }
+
     fn literal_answer(&self, text: &str) -> Sexp {
         let src = format!("import qmluic.QtWidgets\nQWidget {{\n    p: {text}\n}}\n");
         let doc = UiDocument::parse(src.clone(), "MyType", None);
@@ -357,6 +478,19 @@ impl Stream for C03 {
             cases.push(Case { kind: "model", labels: labels.clone(), request: node("literal", vec![st(l.clone())]) });
             cases.push(Case { kind: "spec", labels, request: node("spec-mv", vec![st(l)]) });
         }
+        // string literal spellings
+        let ns = if thorough { 40_000 } else { 3_000 };
+        for k in 0..ns {
+            let mut rng = Rng::fork(seed, "c03-str", k as u64);
+            let raw = random_strlit(&mut rng);
+            let mut labels = vec!["strlit".to_string()];
+            for (needle, l) in [("\\x", "hex"), ("\\u{", "ubrace"), ("\\u", "u4"), ("\\\n", "continuation"), ("\\0", "nul-or-octal")] {
+                if raw.contains(needle) {
+                    labels.push(l.to_string());
+                }
+            }
+            cases.push(Case { kind: "pred", labels, request: node("c03-strlit", vec![st(raw)]) });
+        }
         // pure constant expressions
         let n = if thorough { 60_000 } else { 4_000 };
         for k in 0..n {
@@ -406,6 +540,7 @@ impl Stream for C03 {
         let (tag, args) = req.as_node().expect("request node");
         match tag {
             "literal" | "spec-mv" => self.literal_answer(args[0].as_str().unwrap()),
+            "c03-strlit" => self.strlit_answer(args[0].as_str().unwrap()),
             "c03-judge" => {
                 let (_, p) = args[0].as_node().unwrap();
                 let program = ast::program_of(&args[1]);
